@@ -107,7 +107,12 @@ theorem block_turn (f : Nat) (acc : List Stmt) (p p1 : PS) (s : Stmt) (h1 : p.cu
 
 /-- the rest of the block after an item: either `@end` follows (the block is over, the cursor stays)
     or the next item's first token does (the loop goes on behind the cursor) -/
-theorem parseBlock_aitems (tEnd : Token) (rest : List Token) (hEnd : tEnd.ty = .END) (hrest : ∀ x ∈ rest, x.ty ≠ .ILLEGAL) :
+theorem peek_block_end2 (last tEnd : Token) (rest : List Token) (hEnd : tEnd.ty = .END ∨ tEnd.ty = .ELSE) :
+    (({ toks := last :: tEnd :: rest } : PS).peekIs .ELSE || ({ toks := last :: tEnd :: rest } : PS).peekIs .ELSE_IF ||
+      ({ toks := last :: tEnd :: rest } : PS).peekIs .END) = true := by
+  rcases hEnd with h | h <;> simp [PS.peekIs, PS.peek, h]
+
+theorem parseBlock_aitems (tEnd : Token) (rest : List Token) (hEnd : tEnd.ty = .END ∨ tEnd.ty = .ELSE) (hrest : ∀ x ∈ rest, x.ty ≠ .ILLEGAL) :
     ∀ (body : List AItem) (bt : List Token) (acc : List Stmt) (f : Nat), body ≠ [] → bt.map key = akeys body → 2 * body.length + 5 ≤ f →
       ∃ stmts last, parseBlockStmt f acc ({ toks := bt ++ tEnd :: rest } : PS) = (acc ++ stmts, { toks := last :: tEnd :: rest }) ∧
         AMatch stmts body := by
@@ -123,7 +128,7 @@ theorem parseBlock_aitems (tEnd : Token) (rest : List Token) (hEnd : tEnd.ty = .
       · have : key x ∈ akeys r := by rw [← hkr]; exact List.mem_map_of_mem h
         exact (akeys_clean r _ this).1
       · rcases List.mem_cons.mp h with h | h
-        · rw [h, hEnd]; decide
+        · rw [h]; rcases hEnd with e | e <;> rw [e] <;> decide
         · exact hrest x h
     -- what happens behind the last token `last` of this item: stop at `@end` or go on with the rest
     have hgo : ∀ (last : Token) (bt' : List Token) (acc' : List Stmt) (g : Nat), bt'.map key = akeys r → 2 * r.length + 5 ≤ g →
@@ -138,7 +143,7 @@ theorem parseBlock_aitems (tEnd : Token) (rest : List Token) (hEnd : tEnd.ty = .
         subst hb0
         refine ⟨[], last, ?_, .nil⟩
         simp only [List.nil_append]
-        rw [peek_block_end last tEnd rest hEnd]
+        rw [peek_block_end2 last tEnd rest hEnd]
         simp
       | cons it' r' =>
         cases bt' with
@@ -268,7 +273,7 @@ theorem parse_ifb_stmt (g : Nat) (t1 t2 t3 t4 tEnd : Token) (body : List AItem) 
       | cons t' bt' =>
         have hk' : key t' ∈ akeys (it :: r) := by rw [← hb]; simp
         obtain ⟨_, _, e1, e2, e3⟩ := akeys_clean (it :: r) _ hk'
-        obtain ⟨stmts, last, q1, q2⟩ := parseBlock_aitems tEnd rest hEnd hrest (it :: r) (t' :: bt') [] (g + 2 * (it :: r).length + 6)
+        obtain ⟨stmts, last, q1, q2⟩ := parseBlock_aitems tEnd rest (Or.inl hEnd) hrest (it :: r) (t' :: bt') [] (g + 2 * (it :: r).length + 6)
           (by simp) hb (by omega)
         refine ⟨stmts, last, ?_, q2⟩
         simp only [List.cons_append]
